@@ -29,5 +29,38 @@ ChooseQSim ==
     /\ pc' = "parse"
     /\ UNCHANGED <<A, B>> /\ UNCHANGED runvars
 
+\* ---- a broader draw: every query kind (SELECT plain / aggregated / EXCEPT, UPDATE), with or without a join, with a fault plan ----
+PickW(j)  == RandomElement(IF j = "none" THEN WhereSet ELSE WhereSet \cup WhereJoin)
+ItemsNoJ  == ItemsPlain \cup {<<"as", E(Fa(2)), "zz">>, <<"star">>}
+ItemListsNoJ == {s \in SeqsBetween(ItemsNoJ, 1, 3) : OneUnnest(s)}
+\* aggregate arguments and group keys are the first field (always present: a missing field is None, and None has no order / no numeric value)
+AggLists  == SeqsBetween({Agg("COUNT", <<"int", 1>>), Agg("MAX", Fa(1)), Agg("MIN", Fa(1)), Agg("ARRAY_AGG", Fa(1)), Agg("ANY_VALUE", Fa(1)), Agg("COUNT", Fa(2)), E(Fa(1)), E(L(120))}, 1, 2)
+AssignsSim == {<< <<1, Fa(2)>> >>, << <<2, <<"cat", Fa(1), L(120)>> >> >>, << <<1, Fa(2)>>, <<2, Fa(1)>> >>, << <<3, L(122)>> >>, << <<1, NRx>> >>}
+ChooseQSim2 ==
+    /\ pc = "setupB"
+    \* every draw is bound once (a LET definition would be re-evaluated, i.e. re-drawn, at each use)
+    /\ \E kind \in {RandomElement({"select", "select", "select", "select", "agg", "except", "update"})},
+          j    \in {RandomElement({"none", "none", "inner", "left", "strict"})},
+          ht   \in {RandomElement(BOOLEAN)},
+          o    \in {RandomElement({<<>>, <<>>, <<Fa(1)>>, << <<"cat", Fa(1), L(120)>>, NRx>>})},      \* keys over the first field only (a missing field is None: no order)
+          g    \in {RandomElement({<<>>, <<Fa(1)>>, <<Fa(1)>>})} :
+       LET ks == IF j = "none" THEN <<>> ELSE RandomElement(JoinKeys)
+           w  == PickW(j)
+           tp == IF ht THEN RandomElement(0..3) ELSE 0
+       IN q' = CASE kind = "select" ->
+                      [BaseQ EXCEPT !.items = IF j = "none" THEN RandomElement(ItemListsNoJ) ELSE RandomElement(ItemListsMix), !.where = w, !.order = o,
+                                    !.desc = (o # <<>> /\ RandomElement(BOOLEAN)), !.distinct = RandomElement({"none", "none", "uniq", "count"}),
+                                    !.hastop = ht, !.top = tp, !.join = j, !.jkeys = ks]
+                 [] kind = "agg" ->
+                      [BaseQ EXCEPT !.items = RandomElement(AggLists), !.where = w, !.hasgroup = (g # <<>>), !.group = g, !.hastop = ht, !.top = tp, !.join = j, !.jkeys = ks]
+                 [] kind = "except" ->
+                      [BaseQ EXCEPT !.hasexc = TRUE, !.exc = RandomElement({<<1>>, <<2>>, <<2, 1>>, <<1, 1>>, <<3>>}), !.where = PickW("none"), !.hastop = ht, !.top = tp]
+                 [] OTHER ->
+                      [BaseQ EXCEPT !.kind = "update", !.assign = RandomElement(AssignsSim), !.where = w, !.join = IF j = "strict" THEN "inner" ELSE j, !.jkeys = ks]
+    /\ hasHdr' = RandomElement(HdrModes) /\ breakAt' = RandomElement(BreakPoints)
+    /\ pc' = "parse"
+    /\ UNCHANGED <<A, B>> /\ UNCHANGED runvars
+SimNext2 == GrowA \/ DoneA \/ GrowB \/ ChooseQSim2 \/ Parse \/ BuildB \/ SetHeader \/ RunInit \/ Pull \/ StartRecord \/ Match \/ Feed \/ Finish
+
 SimNext == GrowA \/ DoneA \/ GrowB \/ ChooseQSim \/ Parse \/ BuildB \/ SetHeader \/ RunInit \/ Pull \/ StartRecord \/ Match \/ Feed \/ Finish
 =============================================================================
